@@ -85,6 +85,19 @@ def check_cfg(ctx, fx, cfg):
                 if arg is not None:
                     ok = all((r.kind == "upvar" and r.site == a_idx[0]) or r.kind == "await" for r in roots(b, arg))
                     ctx.require(ok, "R17.1", "%s-loop-stopped-on-same-actor@%s" % (kind, cfg), "stopped() acts on a different value than the one returned", fn=f["def"], site=t["l"])
+    # R17.4 the actor value the loop runs (and hands back) is the one given to the spawn entry point — or a fresh Default
+    # where the API says so — handed over unmodified
+    makers = {f["parent"] for f, _k in loops.find_loops(fx)}
+    n_sites = 0
+    for g, bi_, t_ in graph.all_calls(fx, lambda x: x.get("callee") in makers):
+        gb = ctx.body(fx, g)
+        n_sites += 1
+        rs = roots(gb, t_["args"][1])
+        kinds = {("default" if r.kind == "call:core::default::Default::default" else r.kind) for r in rs}
+        is_default_api = g["def"].split("::{")[0].endswith(("::spawn_owning", "::from_registry_and_spawn")) and "DefaultSpawnable" in g["def"] or "from_registry_and_spawn" in g["def"]
+        ok = bool(rs) and (kinds <= {"arg", "upvar"} or (is_default_api and kinds == {"default"}))
+        ctx.require(ok, "R17.4", "actor-handed-over:%s@%s" % (g["def"], cfg), "the actor value the loop runs is not the one given to this spawn entry point (roots %s)" % sorted(map(str, rs)), fn=g["def"], site=t_["l"])
+    ctx.floor("R17.4", "callers of the loop constructors (%s)" % cfg, n_sites, 8)
     check_join(ctx, fx, cfg, "R17.2")
     check_forwarding(ctx, fx, cfg)
 
